@@ -339,171 +339,6 @@ KIND_OF_ALIAS = {"GRefIn": "Rep", "GRefOut": "Rep", "TRefIn": "Dof", "TRefOut": 
 CONSTS = {"Rep": ("RepSizes", "RepSizesPsum"), "Dof": ("Dofs", "DofsPsum"), "Dim": ("Dims", "DimsPsum")}
 
 
-def check_k1(rep, idx):
-    rep.rule("K1", "BundleImpl: every sub-block is addressed with the constants of its parameter's kind, same part index, same operation", minimum=30)
-    fns = [d for d in idx if d.kind in A.FUNCS and d.pattern and d.qname.startswith("BundleImpl::") and d.file and d.file.startswith(fe.INCLUDE)]
-    if len(fns) < 15:
-        rep.broke("BundleImpl: only %d member functions found (15 confirmed by hand)" % len(fns))
-    for d in fns:
-        opname = d.qname.split("::")[-1]
-        pkind = {}
-        for p in A.params(d.node):
-            alias = p.get("type", {}).get("qualType", "")
-            if alias not in KIND_OF_ALIAS:
-                rep.broke("BundleImpl::%s parameter %s has unknown alias type %s" % (opname, p.get("name"), alias))
-            pkind[p.get("name")] = KIND_OF_ALIAS.get(alias)
-        b = A.body(d.node)
-        local_consts = {}   # name -> (kind, which) for `static constexpr auto Bi = get<i>(DofsPsum)`
-        for x in A.walk(b):
-            if x.get("kind") == "VarDecl" and A.kids(x):
-                t = A.ntext(A.kids(x)[-1])
-                m = re.match(r"^get<i>\((\w+)\)$", t)
-                if m:
-                    local_consts[x.get("name")] = m.group(1)
-        for x in A.walk(b):
-            if x.get("kind") != "CallExpr":
-                continue
-            cal = A.strip(A.kids(x)[0])
-            if cal.get("kind") != "CXXDependentScopeMemberExpr":
-                # callee check: PartImpl<i>::op
-                cn = A.ntext(cal)
-                if cn.startswith("PartImpl<"):
-                    ok = cn == "PartImpl<i>::%s" % opname
-                    f, l = A.loc(x)
-                    rep.instance("K1", d.qname, "callee:" + cn, ok=ok, sample={"file": fe.rel(f), "line": l, "callee": cn})
-                    if not ok:
-                        rep.violation(Finding("K1", d.qname, "callee", "Bundle %s delegates to `%s`, expected PartImpl<i>::%s" % (opname, cn, opname), f, l))
-                continue
-            member = cal.get("member")
-            if member not in ("segment", "block", "middleCols", "head", "tail", "middleRows", "topLeftCorner"):
-                continue
-            base = A.strip(A.kids(cal)[0])
-            if base.get("kind") != "DeclRefExpr":
-                continue
-            pname = base.get("referencedDecl", {}).get("name")
-            if pname not in pkind:
-                continue
-            kind = pkind[pname]
-            targs = A.targs_text(cal) or ""
-            args = [A.ntext(a) for a in A.kids(x)[1:]]
-            f, l = A.loc(x)
-
-            def resolve(t):
-                t = t.strip()
-                for nm, c in local_consts.items():
-                    t = re.sub(r"\b" + nm + r"\b", "get<i>(%s)" % c, t)
-                return t
-            tl = [resolve(t) for t in ir.split_top(targs)] if targs else []
-            al = [resolve(a) for a in args]
-            ok = True
-            why = ""
-            if kind in ("Rep", "Dof", "Dim") and member == "segment":
-                sizes, psum = CONSTS[kind]
-                ok = tl == ["get<i>(%s)" % sizes] and al == ["get<i>(%s)" % psum]
-                why = "segment<%s>(%s) on a %s-kind parameter must be segment<get<i>(%s)>(get<i>(%s))" % (targs, ", ".join(args), kind, sizes, psum)
-            elif kind in ("Dof", "Dim") and member == "block":
-                sizes, psum = CONSTS[kind]
-                ok = tl == ["get<i>(%s)" % sizes] * 2 and al == ["get<i>(%s)" % psum] * 2
-                why = "block<%s>(%s) on a %s x %s parameter must use get<i>(%s) / get<i>(%s) for rows and columns" % (targs, ", ".join(args), kind, kind, sizes, psum)
-            elif kind == "Hess" and member == "block":
-                ok = (tl == ["get<i>(Dofs)"] * 2 and len(al) == 2 and al[0] == "get<i>(DofsPsum)"
-                      and re.sub(r"\s", "", al[1]) in ("Dof*(get<i>(DofsPsum)+j)+get<i>(DofsPsum)",))
-                why = "Hessian block must be block<Di,Di>(Bi, Dof*(Bi+j)+Bi) with Di=get<i>(Dofs), Bi=get<i>(DofsPsum); found block<%s>(%s)" % (targs, ", ".join(args))
-            else:
-                rep.broke("K1: unrecognised addressing %s.%s<%s>(%s) in %s" % (pname, member, targs, ", ".join(args), d.qname))
-                continue
-            rep.instance("K1", d.qname, "%s.%s" % (pname, member), ok=ok,
-                         sample={"file": fe.rel(f), "line": l, "param": pname, "kind": kind, "access": "%s<%s>(%s)" % (member, targs, ", ".join(args))})
-            if not ok:
-                rep.violation(Finding("K1", d.qname, "%s.%s" % (pname, member), why, f, l))
-
-
-def check_k3(rep, idx):
-    """who may write a Bundle output block: only the part's own operation (or the constant fill tabled for commutative parts)"""
-    rep.rule("K3", "BundleImpl: every output sub-block is produced by PartImpl<i>::<same op> (or the tabled constant fill for commutative parts)", minimum=15)
-    CONST_FILL = {"Ad": {"setIdentity"}, "dr_exp": {"setIdentity"}, "dr_expinv": {"setIdentity"}}
-    WHOLE = {"setZero"}       # whole-output initialisation before the per-part loop
-    fns = [d for d in idx if d.kind in A.FUNCS and d.pattern and d.qname.startswith("BundleImpl::") and d.file and d.file.startswith(fe.INCLUDE)]
-    for d in fns:
-        opname = d.qname.split("::")[-1]
-        outs = {p.get("name") for p in A.params(d.node) if p.get("type", {}).get("qualType", "") in ("GRefOut", "TRefOut", "MRefOut", "TMapRefOut", "THessRefOut")}
-        if not outs:
-            continue
-        b = A.body(d.node)
-        parents = {}
-        for p in A.walk(b):
-            for c in A.kids(p):
-                parents[id(c)] = p
-        # locals filled by the part's own operation
-        produced = set()
-        for x in A.walk(b):
-            if x.get("kind") == "CallExpr" and A.ntext(A.kids(x)[0]) == "PartImpl<i>::%s" % opname:
-                for a in A.kids(x)[1:]:
-                    e = A.to_expr(a)
-                    if e[0] == "ref":
-                        produced.add(e[1])
-        for x in A.walk(b):
-            if x.get("kind") != "CallExpr":
-                continue
-            cal = A.strip(A.kids(x)[0])
-            if cal.get("kind") != "CXXDependentScopeMemberExpr":
-                continue
-            base = A.strip(A.kids(cal)[0]) if A.kids(cal) else {}
-            if base.get("kind") != "DeclRefExpr" or base.get("referencedDecl", {}).get("name") not in outs:
-                continue
-            member = cal.get("member")
-            f, l = A.loc(x)
-            par = parents.get(id(x))
-            while par is not None and par.get("kind") in A.TRANSPARENT:
-                par = parents.get(id(par))
-            verdict = None
-            if member in WHOLE and not A.kids(x)[1:]:
-                verdict = "whole-output " + member
-                ok = par is None or par.get("kind") == "CompoundStmt"
-            elif member in ("segment", "block", "middleCols"):
-                ok = False
-                if par is not None and par.get("kind") == "CallExpr" and A.ntext(A.kids(par)[0]) == "PartImpl<i>::%s" % opname:
-                    verdict, ok = "argument of PartImpl<i>::%s" % opname, True
-                elif par is not None and par.get("kind") in ("CXXDependentScopeMemberExpr", "MemberExpr"):
-                    m2 = par.get("member") or par.get("name")
-                    verdict = "constant fill .%s()" % m2
-                    ok = m2 in CONST_FILL.get(opname, set())
-                    # only for commutative parts: must sit in the else-branch of `if constexpr (!PartImpl<i>::IsCommutative)`
-                    cur = par
-                    guarded = False
-                    while id(cur) in parents:
-                        pp = parents[id(cur)]
-                        if pp.get("kind") == "IfStmt":
-                            pk = A.kids(pp)
-                            ct = A.ntext(pk[0])
-                            if ct == "!PartImpl<i>::IsCommutative" and len(pk) > 2 and cur is pk[2]:
-                                guarded = True
-                            elif ct == "PartImpl<i>::IsCommutative" and cur is pk[1]:
-                                guarded = True
-                            break
-                        cur = pp
-                    if ok and not guarded:
-                        ok = False
-                        verdict += " not restricted to commutative parts"
-                elif par is not None and par.get("kind") in ("BinaryOperator", "CXXOperatorCallExpr"):
-                    e = A.to_expr(par)
-                    if e[0] == "op" and e[1] == "=":
-                        rhs_refs = A.refs(e[3])
-                        verdict = "assigned from %s" % A.show(e[3])[:50]
-                        ok = bool(rhs_refs & produced) and not (rhs_refs & {p.get("name") for p in A.params(d.node)})
-                    else:
-                        verdict = "operator %s" % (e[1] if e[0] == "op" else "?")
-                else:
-                    verdict = "used in %s" % (par.get("kind") if par else None)
-            else:
-                continue
-            rep.instance("K3", d.qname, "%s@%s" % (member, verdict), ok=ok, sample={"file": fe.rel(f), "line": l, "use": verdict})
-            if not ok:
-                rep.violation(Finding("K3", d.qname, member,
-                                      "output block `%s` of Bundle %s is %s; a Bundle operation must be the tuple of the parts' own operation "
-                                      "(PartImpl<i>::%s), not a re-implementation or a copy of the input" % (A.text(x)[:60], opname, verdict, opname), f, l))
-
-
 # ---- B3: Bundle operation == tuple / block arrangement of the parts' own operation, as power series along rays ------------------
 
 def check_b3(rep, bundles, tier):
@@ -605,7 +440,8 @@ def check_b3(rep, bundles, tier):
 
 def check(rep, tier, replay=None):
     rep.explanations.append(
-        "C06: K1 types every index expression of the BundleImpl template pattern (holds for all compositions); B1/B2 read "
+        "C06: K.exec abstractly executes every member of the BundleImpl template (engine M) for an abstract composition with pairwise distinct part sizes and compares "
+        "the whole output with the direct-product layout (holds for all compositions); B1/B2 read "
         "block non-interference and zero structure off the optimized IR of instantiated compositions; T1 reads the additive "
         "group shape of vectors/scalars off the IR (results that must not depend on inputs are literally constants).")
     rep.trusted.update(["clang++-16 front end and -O2 pipeline", "lib/ir.py dependence analysis (SSA def-use + control dependence)",
@@ -618,5 +454,5 @@ def check(rep, tier, replay=None):
     check_translation(rep, tier)
     objs = fe.ast_dump("BundleImpl")
     rep.unit("umbrella TU filtered BundleImpl")
-    check_k1(rep, A.index(objs))
-    check_k3(rep, A.index(objs))
+    import bundlem
+    bundlem.check(rep, tier, objs)
